@@ -40,7 +40,7 @@ def plan(tier):
 
 
 def n_tables(tier):
-    return 110 if tier == 'thorough' else 22
+    return 90 if tier == "thorough" else 16
 
 
 # ---- operation universe ----------------------------------------------------
@@ -184,10 +184,8 @@ def gen_expr(rng, tier):
         tree = ['dict', [['a', gen_num(rng, F, cols, 1)], ['b', gen_num(rng, F, cols, 1)]]]
     elif r < 0.92:
         tree = ['to_frame', gen_num(rng, F, cols, 1)]
-    elif r < 0.96:
-        tree = ['index', F]
     else:
-        tree = ['bin', rng.choice(['<<', '>>']), ['col', F, rng.choice([c for c in cols if c in ('y', 'h')] or ['x']), 'item'], ['const', 1]]
+        tree = ['index', F]
     return {'fam': 'expr', 'src': 'df', 'tree': tree, 'pre': rng.choice([None, None, None, ['y', '>=', 3]])}
 
 
